@@ -136,6 +136,16 @@ fn note_monitor(st: &mut Stats) {
     Stats::bump(&mut st.faults, "unannounced_os_block_detached_by_monitor", now - before);
 }
 
+/// Records are kept one per class - but a record that matches a listed known finding must not
+/// take the place of one of the same class that does not (a different cause).
+fn class_key(kfs: &[Value], r: &Replay) -> String {
+    if match_known(kfs, &r.property, &r.class, &r.msg).is_some() {
+        format!("{}#known", r.class)
+    } else {
+        r.class.clone()
+    }
+}
+
 pub fn cmd_worker(a: &[String]) {
     let prop = a[0].clone();
     let thorough = a[1] == "thorough";
@@ -173,6 +183,7 @@ pub fn cmd_worker(a: &[String]) {
     let mut k = startk;
     let out = std::io::stdout();
     let mut reported: BTreeMap<String, u32> = BTreeMap::new();
+    let kfs_w = known_findings();
     let print_digests = std::env::var("VERIF_DIGESTS").is_ok();
     while k < maxk && now_ms() < deadline {
         let seed = base.wrapping_add(offset).wrapping_add(k.wrapping_mul(stride));
@@ -185,8 +196,9 @@ pub fn cmd_worker(a: &[String]) {
             Ok(None) => break,
             Ok(Some(reps)) => {
                 for rep in reps {
-                    // the parent keeps the first record per class; do not flood it
-                    let n = reported.entry(rep.class.clone()).or_insert(0);
+                    // the parent keeps the first record per class (listed known findings apart
+                    // from everything else); do not flood it
+                    let n = reported.entry(class_key(&kfs_w, &rep)).or_insert(0);
                     *n += 1;
                     if *n > 2 {
                         continue;
@@ -538,6 +550,7 @@ fn run_phase(
     total_found: &mut u64,
 ) {
     let (tx, rx) = mpsc::channel::<Msg>();
+    let kfs_p = known_findings();
     let mut slots: Vec<WorkerSlot> = (0..jobs).map(|_| WorkerSlot { next_k: 0, done: false }).collect();
     for i in 0..jobs {
         spawn_worker(exe, &tx, i, prop, tier, base, jobs as u64, 0, deadline, maxk);
@@ -561,7 +574,7 @@ fn run_phase(
                         slots[i].next_k = k + 1;
                         if let Ok(r) = serde_json::from_value::<Replay>(v["replay"].clone()) {
                             *total_found += 1;
-                            found.entry(r.class.clone()).or_insert(r);
+                            found.entry(class_key(&kfs_p, &r)).or_insert(r);
                         }
                     }
                 } else if let Some(j) = l.strip_prefix("FATAL ") {
